@@ -179,8 +179,14 @@ def run(ctx) -> None:
         raise AnchorError("_write_data_rows: outer loop over tick times not found")
     tvar = outer[0].target.id
 
+    # the row list: the local passed to writerow(...) inside the tick-time loop (by role)
+    row_var = next((norm(c.args[0]) for c in ast.walk(outer[0]) if isinstance(c, ast.Call) and call_attr(c) == "writerow" and c.args
+                    and isinstance(c.args[0], ast.Name)), None)
+    if row_var is None:
+        raise AnchorError("_write_data_rows: the row list handed to writerow(...) was not found")
+
     def is_cell_append(n):
-        return any(call_attr(c) == "append" and norm(c.func) == "row.append" for c in n.calls())
+        return any(call_attr(c) == "append" and norm(c.func) == f"{row_var}.append" for c in n.calls())
     # one cell per entry per path: enumerate acyclic paths of the body from the loop edge back to the loop node
     counts = set()
     witness = {}
@@ -243,10 +249,10 @@ def run(ctx) -> None:
 
     # R34e
     head_val = f"{evar}.values[0].value"
-    cells = [n for n in gr.nodes if any(call_attr(c) == "append" and norm(c.func) == "row.append" and c.args
+    cells = [n for n in gr.nodes if any(call_attr(c) == "append" and norm(c.func) == f"{row_var}.append" and c.args
                                         and norm(c.args[0]) == head_val for c in n.calls())]
     if not cells:
-        raise AnchorError(f"_write_data_rows: no `row.append({head_val})` found; the algorithm changed shape")
+        raise AnchorError(f"_write_data_rows: no `{row_var}.append({head_val})` found; the algorithm changed shape")
     ht = f"{evar}.values[0].tick_time"
     for cn in cells:
         inst = f"_write_data_rows: {cn.text()}"
